@@ -15,9 +15,11 @@ type loopRec struct {
 	pos      token.Pos
 	modCells []ssa.Value // Allocs / FreeVars (of this fn) whose cells may be stored to in the loop
 	modHeaps map[string]types.Type
+	modFresh map[string]types.Type
 	modAll   bool // unknown callee: every heap may change
 	allocs   bool
 	dynCall  bool
+	hasCall  bool
 }
 
 type loopInfo struct {
@@ -139,9 +141,14 @@ func addrRoot(v ssa.Value) ssa.Value {
 }
 
 type writeSet struct {
-	heaps map[string]types.Type
+	heaps map[string]types.Type // heaps in which a pre-existing region may be written
+	fresh map[string]types.Type // heaps in which only regions allocated by the code itself are written
 	all   bool
 	alloc bool
+}
+
+func newWriteSet() *writeSet {
+	return &writeSet{heaps: map[string]types.Type{}, fresh: map[string]types.Type{}}
 }
 
 // heapWriteType returns the heap type written by a store through addr.
@@ -180,7 +187,7 @@ func (x *Exec) writes(fn *ssa.Function, seen map[*ssa.Function]bool) *writeSet {
 	if ws, ok := x.writeCache[fn]; ok {
 		return ws
 	}
-	ws := &writeSet{heaps: map[string]types.Type{}}
+	ws := newWriteSet()
 	if seen[fn] {
 		return ws
 	}
@@ -207,6 +214,9 @@ func (ws *writeSet) merge(o *writeSet) {
 	for k, t := range o.heaps {
 		ws.heaps[k] = t
 	}
+	for k, t := range o.fresh {
+		ws.fresh[k] = t
+	}
 	ws.all = ws.all || o.all
 	ws.alloc = ws.alloc || o.alloc
 }
@@ -215,7 +225,11 @@ func (x *Exec) instrWrites(in ssa.Instruction, ws *writeSet, seen map[*ssa.Funct
 	switch v := in.(type) {
 	case *ssa.Store:
 		if t, ok := x.heapWriteType(v.Addr); ok {
-			ws.heaps[x.te.HeapKey(t)] = t
+			if _, isAlloc := addrRoot(v.Addr).(*ssa.Alloc); isAlloc {
+				ws.fresh[x.te.HeapKey(t)] = t // initialisation of a region this code allocated
+			} else {
+				ws.heaps[x.te.HeapKey(t)] = t
+			}
 		}
 	case *ssa.Alloc:
 		if !isLocalCell(v) {
@@ -224,17 +238,17 @@ func (x *Exec) instrWrites(in ssa.Instruction, ws *writeSet, seen map[*ssa.Funct
 			if at, ok := et.Underlying().(*types.Array); ok {
 				et = at.Elem()
 			}
-			ws.heaps[x.te.HeapKey(et)] = et
+			ws.fresh[x.te.HeapKey(et)] = et
 		}
 	case *ssa.MakeSlice:
 		ws.alloc = true
 		et := v.Type().Underlying().(*types.Slice).Elem()
-		ws.heaps[x.te.HeapKey(et)] = et
+		ws.fresh[x.te.HeapKey(et)] = et
 	case *ssa.Convert:
 		if (isString(v.X.Type()) && isByteSlice(v.Type())) || (isByteSlice(v.X.Type()) && isString(v.Type())) {
 			ws.alloc = true
 			bt := types.Typ[types.Uint8]
-			ws.heaps[x.te.HeapKey(bt)] = bt
+			ws.fresh[x.te.HeapKey(bt)] = bt
 		}
 	case *ssa.MapUpdate:
 		// maps are modelled as ghost state, not heaps
@@ -267,7 +281,7 @@ func (x *Exec) instrWrites(in ssa.Instruction, ws *writeSet, seen map[*ssa.Funct
 
 func (x *Exec) computeLoopMods(fn *ssa.Function, lr *loopRec) {
 	cellSet := map[ssa.Value]bool{}
-	ws := &writeSet{heaps: map[string]types.Type{}}
+	ws := newWriteSet()
 	seen := map[*ssa.Function]bool{}
 	for b := range lr.blocks {
 		for _, in := range b.Instrs {
@@ -288,6 +302,9 @@ func (x *Exec) computeLoopMods(fn *ssa.Function, lr *loopRec) {
 				}
 			case ssa.CallInstruction:
 				c := v.Common()
+				if _, isB := c.Value.(*ssa.Builtin); !isB {
+					lr.hasCall = true
+				}
 				if c.StaticCallee() == nil && !c.IsInvoke() {
 					if _, isB := c.Value.(*ssa.Builtin); !isB {
 						lr.dynCall = true
@@ -321,7 +338,7 @@ func (x *Exec) computeLoopMods(fn *ssa.Function, lr *loopRec) {
 				}
 			}
 		}
-		sub := &writeSet{heaps: map[string]types.Type{}}
+		sub := newWriteSet()
 		var addAnon func(f *ssa.Function)
 		addAnon = func(f *ssa.Function) {
 			for _, af := range f.AnonFuncs {
@@ -337,6 +354,7 @@ func (x *Exec) computeLoopMods(fn *ssa.Function, lr *loopRec) {
 	}
 	sort.Slice(lr.modCells, func(i, j int) bool { return lr.modCells[i].Name() < lr.modCells[j].Name() })
 	lr.modHeaps = ws.heaps
+	lr.modFresh = ws.fresh
 	lr.modAll = ws.all
 	lr.allocs = ws.alloc
 }
